@@ -1,6 +1,6 @@
 use crate::util::Tok;
 
-mod c01;
+pub mod c01;
 mod c02;
 mod c03;
 mod c04;
@@ -9,8 +9,9 @@ mod c06;
 mod c07;
 mod c08;
 mod c17;
-mod c18;
+pub mod c18;
 mod c19;
+mod c20;
 mod c11;
 mod c12;
 mod c13;
@@ -32,6 +33,8 @@ pub fn run(engine: &str, toks: Vec<Tok>) -> Vec<Tok> {
         "c06_encode" => c06::encode(toks),
         "c07_run" => c07::run(toks),
         "c08_run" => c08::run(toks),
+        "c20_run" => c20::run(toks),
+        "c20_scrub" => c20::scrub(toks),
         "c19_run" => c19::run(toks),
         "c16_run" => c16::run(toks),
         "c18_session" => c18::session(toks),
